@@ -14,24 +14,4 @@ impl<'b> InnerBucket<'b> {
 }
 // what TxInner::check promises on Ok (defined and proved in unit check; the commit path only needs to ESTABLISH check's precondition)
 pub uninterp spec fn accounted(t: &TxInner, visited: Seq<u64>) -> bool;
-// what Tx::commit needs from the transaction it is called on (established by Tx::new, kept by the tree layer's frame)
-spec fn tx_commit_pre(t: TxInner) -> bool {
-    let f = t.freelist.cur();
-    &&& t.db.inner.pagesize >= 1024 && f.meta.pagesize == t.db.inner.pagesize
-    &&& f.meta.tx_id == t.meta.tx_id
-    &&& txfl_inv(f)
-    // the transaction's snapshot map was made with the handle's page size and covers the file as it was when the transaction began
-    &&& tx_map_ok(t)
-    &&& t.meta.freelist_page > 1 && t.num_freelist_pages > 0 && t.meta.freelist_page + t.num_freelist_pages <= u64::MAX
-    // resource bound: whatever the tree layer allocates, the file offsets of the commit fit in u64
-    &&& forall|f2: TxFreelist, root: BucketMeta| #![trigger tree_frame(f, f2), wd_fits(TxInner { meta: Meta { root, ..t.meta }, ..t }, f2)]
-            tree_frame(f, f2) ==> wd_fits(TxInner { meta: Meta { root, ..t.meta }, ..t }, f2)
-}
-
-// the map a transaction reads through: made with the handle's page size (a multiple of 8), and covering the whole file as it
-// was when the transaction began (DBInner keeps map length == file length: open maps the whole file, resize remaps it)
-#[verifier::opaque]
-spec fn tx_map_ok(t: TxInner) -> bool {
-    &&& t.pages.pagesize == t.db.inner.pagesize && t.db.inner.pagesize % 8 == 0
-    &&& (t.lock matches TxLock::Rw(g) ==> (*t.pages.data)@.len() >= g@.len())
-}
+//@include prelude/tx_commit_pre.rs
